@@ -87,7 +87,7 @@ def exchangeOutcomes (cf : MG Var) (outcomes : Event) (cond : Var) (val : Iv) : 
 mutual
 /-- base names of the NON-`Intervention` variables `expression._iter_variables()` yields: the event variables of every
 leaf and the ranges of every `Sum` (the subscripts are `Intervention` objects, skipped by both `conditional` overloads
-since `fix:` f502ca2) -/
+since `fix:` a54a0f5) -/
 def exprNames : Expr → List Name
   | .prob _ c p => ((c ++ p).filter (fun v => !v.isIv)).map (·.name)
   | .prod fs => exprNamesList fs
@@ -113,7 +113,7 @@ def divide (e d : Expr) : Except Err Expr :=
   | _, _ => .ok (.frac e d)
 
 /-- `est.conditional(ranges)`: both overloads normalise over the event variables and the ranges of inner sums that are not
-in `ranges`; neither collects intervention subscripts (`Expression.conditional` did before `fix:` f502ca2) -/
+in `ranges`; neither collects intervention subscripts (`Expression.conditional` did before `fix:` a54a0f5) -/
 def conditional (e : Expr) (ranges : List Name) : Except Err Expr :=
   let compl := diff' (dedup' (exprNames e)) ranges
   divide e (sumSafe e compl)
